@@ -149,6 +149,10 @@ def hessian(poly: PolyLike) -> ndpoly:
     """
     poly = numpoly.aspolynomial(poly)
     polys = [
-        gradient(derivative(poly, diffvar))[numpy.newaxis] for diffvar in poly.names
+        numpoly.concatenate(
+            [derivative(poly, var1, var2)[numpy.newaxis] for var2 in poly.names],
+            axis=0,
+        )[numpy.newaxis]
+        for var1 in poly.names
     ]
     return numpoly.concatenate(polys, axis=0)
